@@ -307,7 +307,7 @@ def modular_stream(ctx, rng, count):
                 continue
             ctx.evaluations += 1
             ctx.count("modular-chunking")
-            v = check_modular_chunking(case, cuts)
+            v = check_modular_chunking(case, cuts, ctx)
             if v is None:
                 ctx.traces_validated += 1
             else:
@@ -315,7 +315,24 @@ def modular_stream(ctx, rng, count):
                 return
 
 
-def check_modular_chunking(case, cuts):
+def check_translated_interpreter(ctx, case, cuts, a, rep):
+    """The lists every update() of the MODULAR monitor returned against the run of the interpreter as translated from the source
+    (driver command `denseprogen`: update visitor, memo, dictionary keyed by name, constants_sent, set_variable_to_ast_from_dataset -
+    GeneratedGlueDn.lean under GlueDn.lean) on the inlined assertions in the order of the text; sample by sample."""
+    specs = [case["inl"][nm] for nm, _ in case["defs"]]
+    m, = D.prog_online_query([(specs, case["sig"], cuts)])
+    ctx.count("on-c/interpreter-translated:" + m[0])
+    if m[0] != "ok" or any(p[1] != p[1] for row in a[1] for p in row):
+        return
+    same = len(a[1]) == len(m[1]) and all(D.same_samples(x, y) for x, y in zip(a[1], m[1]))
+    if not same:
+        ctx.diffs.append(Violation("the dense online interpreter as translated from the source returns %r, update() of the modular "
+                                   "specification returned %r (cuts %s): %s" % (m[1], a[1], rep["cuts"], rep["spec"]),
+                                   dict(rep, translated=[[[str(t), v] for t, v in row] for row in m[1]]), failing_input=False,
+                                   stream="on-c/interpreter-translated"))
+
+
+def check_modular_chunking(case, cuts, ctx=None):
     sig, vs = case["sig"], case["vars"]
     nup, chunks = D.online_chunks(sig, cuts)
 
@@ -326,6 +343,8 @@ def check_modular_chunking(case, cuts):
         return impl.guarded(go)
     a, b = feed(True), feed(False)
     rep = dict(D.mod_rep(case), kind="modular", cuts=cuts_txt(cuts), impl_modular=a, impl_inlined=b)
+    if ctx is not None and a[0] == "ok":
+        check_translated_interpreter(ctx, case, cuts, a, rep)
     if b[0] != "ok":
         return None           # the inlined form is judged by the main stream
     if a[0] != "ok":
